@@ -362,6 +362,52 @@ def loop_requests(ctx, quick, k):
     return req
 
 
+def stream_kind(ctx, real, quick):
+    """The function-level correspondence runs on std::istringstream, the file-level reader on std::ifstream.  A filebuf reads
+    block-wise and has a one-byte putback area at a block boundary (and its pbackfail accepts a *different* character,
+    which an input-only stringbuf refuses).  The same calls are made on both kinds of stream with the input shifted so that
+    every byte of it (every putback site of the readers) falls on the block boundaries 8191 / 8192 (and 2x): the answers
+    (return values, position, eof, fail) must be equal — the stream model then also speaks for the file-level reader."""
+    cases = {
+        "readdata1": [b"#1=POINT(1.,2.);/*c*/#2=NOPE('a;b');\n#3 = KINDS();ENDSEC;", b"#1=POINT(1.,2.) ; junk ; #2=POINT(3.,4.);ENDSEC;",
+                      b"/* c */ /* d */#1=(A1(2.5)B1(.RED.));\\N\\#2=POINT(1.,2.);"],
+        "readheader": [b"HEADER;/*c*/K('a;');!U(1);ENDSEC;", b"HEADER; X1(2);\\N\\ Y(3) ; ENDSEC;"],
+        "append1": [b"ISO-10303-21;HEADER;ENDSEC;DATA;#1=POINT(1.0,2.0);#2=(A1(2.5)B1(.RED.));ENDSEC;"],
+        "skipinst": [b"ab'c;d'/*;*/e/f;g", b"//*x*/;"], "findstart": [b"ab'c#d'/e#f"], "readcomment": [b"/* abc */x", b"/x", b"/*/ */y"],
+        "toksep": [b" /*a*/ \\N\\ /*b*/\nx", b"\\F\\\\x/y"], "subsuperb": [b"(A1(2.5)B1(.RED.)BASE(9)C1((1,2,(3))));x", b"(A1('a)')/*c*/B1(;"],
+        "getkeyword": [b"KEYWORD(", b"A-B_9;"], "finddata": [b"x'DATA;'/*DATA;*/DAT DATA ;y"], "recover": [b"(x ' ) ; ' ) ;y", b"(x);", b"() x"],
+        "findheader": [b"xx;HEAD;ER;HEADER;yy"],
+    }
+    bs = 8192
+    req, meta = [], []
+    for fn, ins in cases.items():
+        for data in ins:
+            for sign in ((1,) if quick else (1, -1)):
+                for blk in ((1,) if quick else (1, 2)):
+                    for off in range(0, len(data) + 2):
+                        pad = sign * (bs * blk - off)
+                        req.append(f"{fn}@s {hexs(data)} {pad}")
+                        req.append(f"{fn}@f {hexs(data)} {pad}")
+                        meta.append((fn, data, pad))
+    ans = real.run_fn(req)
+    nbad = 0
+    for i, (fn, data, pad) in enumerate(meta):
+        a, f = ans[2 * i], ans[2 * i + 1]
+        ctx.count(1, key=("stream-kind", fn, data, pad))
+        ctx.hist("stream kinds compared", fn)
+        if isinstance(a, dict) or isinstance(f, dict):
+            d = a if isinstance(a, dict) else f
+            ctx.violation(f"fn:{fn}:{d['fail']}@{d['where']}", f"{fn} behind {abs(pad)} bytes of white space: {d['fail']} in {d['where']}",
+                          {"kind": "fn", "schema": real.schema, "request": req[2 * i + (0 if isinstance(a, dict) else 1)], "sanitizer": d["err"][-1200:]})
+            continue
+        if a != f and nbad < 3:
+            nbad += 1
+            ctx.broken.append(("stream model: std::istringstream and std::ifstream answer differently at a block boundary",
+                               f"`{fn}` on {abs(pad)} bytes of white space + {data!r}: istringstream `{a}`, ifstream `{f}`"))
+    ctx.cov["correspondence"]["stream kinds"] = {"pairs": len(meta), "different": nbad}
+    return nbad == 0
+
+
 def function_level(ctx, real, quick, k):
     """sites + loops against the model.  Returns True when everything agrees and nothing died."""
     clean = True
@@ -1232,6 +1278,7 @@ def run(ctx):
         ctx.cov["correspondence"][f"calibration/{schema}"] = {"ms_per_byte": round(ms_per_byte, 5)}
         if si == 0 and have_model:
             function_level(ctx, real, quick, k)
+            stream_kind(ctx, real, quick)
         file_level(ctx, real, files, quick, ms_per_byte)
         attr_exhaustive(ctx, real, quick, ms_per_byte)
         aggr_exit_stream(ctx, real, quick, ms_per_byte)
